@@ -53,6 +53,11 @@ def main(argv: List[str]) -> int:
 
         return st_main(args)
 
+    if args.target == "renamefuzz":
+        from .selftest import rename_main
+
+        return rename_main(args)
+
     if args.target == "all":
         worst = 0
         for pid in CLAIMED:
